@@ -29,10 +29,11 @@ func VerifC12Decimals() {
 	s1, s2 := 0, 0
 	light := nd.Param("light", 0) == 1 // the quick tier: four scale pairs and five expressions
 	if light {
-		sp := [][2]int{{2, 2}, {1, 2}, {2, 0}, {0, 1}}[nd.Choice("scales", 4)]
+		// (10, 10): values a ten-billionth apart are different numbers
+		sp := [][2]int{{2, 2}, {1, 2}, {2, 0}, {0, 1}, {10, 10}}[nd.Choice("scales", 5)]
 		s1, s2 = sp[0], sp[1]
 	} else {
-		s1, s2 = nd.Choice("scale1", 3), nd.Choice("scale2", 3)
+		s1, s2 = []int{0, 1, 2, 10}[nd.Choice("scale1", 4)], []int{0, 1, 2, 10}[nd.Choice("scale2", 4)]
 	}
 	a, x := nd.Decimal(n1, s1), nd.Decimal(n2, s2)
 	// exact comparison of the two rationals on integers
